@@ -14,13 +14,14 @@ PROPS = {
     ),
     "C18": dict(
         design_ref="DESIGN.md 7 C18",
-        technique="contract-based deductive verification of throttle.check_allow/login_failed (PyVC + z3) with the history statement reduced to per-call lemmas L1-L4; bounded timed-history oracle",
+        technique="contract-based deductive verification (PyVC + z3) of throttle.check_allow/login_failed (history statement reduced to per-call lemmas L1-L4), auth.authenticate, the merge part of read_users_from_file and PreAuthenticated.do_login (call order, state gate); bounded timed-history and password-file oracles",
         text="check_allow and login_failed are proved against exact functional contracts over the symbolic throttle tables and a real-valued clock: entries are never purged within PURGE_TIME of the "
              "last recorded failure (L1), each recorded failure increments the count (L2), a locked user or address is refused (L3), and an attempt with both counts at or below threshold is never refused (L4). "
-             "The statement over all timed histories follows by induction over calls (DESIGN 2.7).",
-        note="Decided here: clauses (c) and (d). Clauses (a)/(b) (state gate, call order in do_login/_do_pass, authenticate) are not yet under contract. Trusted: z3, PyVC encoding, time.time() non-decreasing.",
+             "The statement over all timed histories follows by induction over calls (DESIGN 2.7). authenticate is proved to return only for an existing account whose *current* password-file hash accepts the password "
+             "(read_users_from_file's merge into USERS is proved to replace every record), and PreAuthenticated.do_login to reach AUTHENTICATED only after check_allow allowed and authenticate returned, to leave the state unchanged on every refusal and to record every wrong-password attempt.",
+        note="Not yet under contract: POP3 _do_pass, the IMAPSubprocessInterface.message state gate, hashers.verify_password (A-HASH assumed as the uninterpreted predicate pw_ok), the password-file line parser (assumed to yield the file's records). Trusted: z3, PyVC encoding, time.time() non-decreasing.",
         assumptions=["z3 sound", "PyVC encoding (DESIGN 2.2)", "A-IO: time.time() is non-decreasing", "A-HASH not needed for (c),(d)"],
-        not_decided="(a) pre-auth isolation and (b) password check are not decided by this check yet",
+        not_decided="POP3 path, front-end state gate and the hash function itself",
     ),
     "C04": dict(
         design_ref="DESIGN.md 7 C04",
